@@ -109,6 +109,14 @@ var c16Fixed = []string{
 	"x := 7 / 2\ny := 7 % 3\nz := -7 % 3\nw := 1 / 0\n", "x := 5\ny := 0\nz := x % y\n", "x := 0 / 0\ny := x == x\n",
 	"x := 1e300 * 1e300\ny := -x\nz := x - x\n",
 	// scoping
+	"x := 10\nt := 0\nfor x := range 3\n    t = t + x\nend\nx = x + 1\n",
+	"x := \"s\"\nt := 0\nfor x := range 3\n    t = t + x\nend\nx = x + \"!\"\n",
+	"t := 0\nif true\n    x := 5\n    for x := range 2\n        t = t + x\n    end\n    t = t * 10 + x\nend\n",
+	"t := 0\nfor i := range 2\n    for i := range 3\n        t = t + 1\n    end\n    t = t + 100 * i\nend\n",
+	"t := 0\nfor i := range 2\n    i := 7\n    t = t + i\nend\n",
+	"t := \"\"\nfor c := range \"ab\"\n    for c := range [1 2]\n        t = t + \"x\"\n    end\n    t = t + c\nend\n",
+	"a := 1\nif true\n    b := 2\n    if true\n        c := 3\n        a = a + b + c\n    end\n    d := 4\n    a = a + b + d\nend\nif true\n    e := 5\n    a = a + e\nend\n",
+	"t := 0\nwhile t < 3\n    u := t * 2\n    v := u + 1\n    t = t + 1\n    if v > 2\n        w := v\n        t = t + w - w\n    end\nend\n",
 	"g := 0\nfor i := range 2\n    r := g + 1\n    g := \"s\"\n    g = g + \"t\"\n    tn := r\n    tn = tn + 1\nend\n",
 	"x := 1\nif true\n    x := 2\n    x = x + 1\n    if true\n        x := 3\n        x = x + 1\n    end\n    x = x + 10\nend\nx = x + 100\n",
 	"t := 0\nfor i := range 3\n    for j := range 3\n        if j == 1\n            break\n        end\n        t = t + 10 * i + j\n    end\nend\n",
@@ -410,6 +418,9 @@ func c16Classify(src, want, got string) string {
 			nonASCII = true
 		}
 	}
+	if loopVarShadows(src) {
+		return "for-loopvar-shadows-outer"
+	}
 	switch {
 	case nonASCII && strings.Contains(got, "\\x") || nonASCII && strings.ContainsRune(got, '\uFFFD'):
 		return "string-bytes"
@@ -419,6 +430,21 @@ func c16Classify(src, want, got string) string {
 		return "map-order"
 	}
 	return "global-value-differs"
+}
+
+var forVarRe = regexp.MustCompile(`(?m)^\s*for (\w+) := range`)
+
+// loopVarShadows reports whether a loop variable has the name of a variable declared outside that loop header.
+func loopVarShadows(src string) bool {
+	for _, m := range forVarRe.FindAllStringSubmatch(src, -1) {
+		name := m[1]
+		decl := regexp.MustCompile(`(?m)^\s*` + name + `(:=| :=|:)`)
+		forDecl := regexp.MustCompile(`(?m)^\s*for ` + name + ` := range`)
+		if decl.MatchString(src) || len(forDecl.FindAllString(src, -1)) > 1 {
+			return true
+		}
+	}
+	return false
 }
 
 func sortedChars(s string) string {
@@ -608,6 +634,13 @@ func checkC17(w *fw.Worker, src string) *fw.Violation {
 	}
 	if rr.vmClass == "internal" || rr.vmClass == "unknown-error" {
 		return viol("vm-internal-error", "the VM ended with an internal error", "completion or a user error", fmt.Sprint(rr.vmErr))
+	}
+	if loopVarShadows(src) {
+		// two variables that are alive at the same time must not share a slot: for a loop variable that shadows an
+		// outer variable this shows as the outer variable being overwritten (compared with the evaluator)
+		if v := checkC16(nil, src); v != nil && v.Signature == "for-loopvar-shadows-outer" {
+			return viol("slot-shared:for-loopvar-shadows-outer", "a loop variable shares the storage slot of the live outer variable it shadows", v.Expected, v.Observed)
+		}
 	}
 	if rr.vmClass == "ok" && rr.sp != rr.bc.LocalCount {
 		return viol("sp-not-restored", "the operand stack is not empty when the program ends", fmt.Sprint("sp = LocalCount = ", rr.bc.LocalCount), fmt.Sprint("sp = ", rr.sp))
